@@ -128,7 +128,7 @@ def kswin_seed_across_processes(out: Outcome, seed, xs: list) -> None:
     import subprocess
     import sys
     from common import REPO
-    code = ("import sys, json; sys.path.insert(0, %r); import warnings; warnings.filterwarnings('ignore')\n"
+    code = ("import sys, json; sys.path.insert(0, %r); \n"
             "import frouros.detectors.concept_drift as cd\n"
             "req = json.loads(sys.stdin.read())\n"
             "d = cd.KSWIN(config=cd.KSWINConfig(alpha=0.2, seed=req['seed'], min_num_instances=12, num_test_instances=4))\n"
